@@ -84,6 +84,10 @@ FREECYCLE = H("txfile.VerifProgFreeCycle", "10 committed pages, two transactions
 OVERFLOW = H("txfile.VerifProgOverflow", "bounded file with a full data area; a transaction with the overflow area enabled overwrites 1-3 pages (optional Flush), commit or rollback, reopen, then frees: partition, contents, snapshot after rollback",
              "InitMetaArea=2 (thorough also 0 and 4, WALLimit 1)", thorough={"params": {"metaarea": 0, "wallimit": 1, "maxover": 4}})
 
+ALLOCFREE_REOPEN = H("txfile.VerifProgReopen", "allocation/free-only transactions of 3 (thorough 4) operations (alloc without write, allocN, free of a page allocated in the same transaction, free), commit, reopen: "
+                     "FileStats reported on open == FileStats of the running instance == model; snapshot, allocatable pages", "opset=1 nops=3 (thorough 4)",
+                     quick={"params": {"opset": 1, "nops": 3, "ntx": 1, "nops2": 1}}, thorough={"params": {"opset": 1, "nops": 4, "ntx": 1, "nops2": 1}, "max_paths": 400000, "budget": "1500s"})
+
 # ------------------------------------------------------------------ C07
 prop("C07", bounds=PROG_BOUNDS, outside=PROG_OUT,
      harnesses=variants("txfile.VerifProgAbort", "aborted transaction (Rollback/Close) vs. snapshot at Begin: allocator partition, markers, meta area, overwrite log, header, stats, file size, follow-up allocations",
@@ -117,7 +121,7 @@ prop("C04", bounds=PROG_BOUNDS, outside=PROG_OUT,
 # ------------------------------------------------------------------ C11
 prop("C11", bounds=PROG_BOUNDS, outside=PROG_OUT,
      harnesses=variants("txfile.VerifProgOwn", "allocatable + live + meta area + 2 == max pages, extent <= max, FileStats == model after every commit",
-                        {"nops": 3, "ntx": 1}, {"nops": 2, "ntx": 2}, vs=(0, 1, 4, 5), quick_vs=(0, 5)) + [FREECYCLE])
+                        {"nops": 3, "ntx": 1}, {"nops": 2, "ntx": 2}, vs=(0, 1, 4, 5), quick_vs=(0, 5)) + [FREECYCLE, ALLOCFREE_REOPEN])
 
 CHECKS["C10"]["harnesses"] += [
     H("txfile.VerifFreelistSerialize", "readFreeList(writeFreeLists(meta, data)) == (meta, data) over several 64-byte pages; chain links exactly the allocated pages; the predictor never under-estimates", "<= 2 meta + 4 data regions, 64-bit ids, 32-bit counts",
@@ -127,6 +131,7 @@ CHECKS["C10"]["harnesses"] += [
 CHECKS["C10"]["harnesses"] += variants("txfile.VerifProgReopen", "reopened instance == running instance (free lists, markers, meta area, overwrite log, root, stats, allocatable pages), then one more symbolic transaction",
                                         {"nops": 2, "ntx": 1, "nops2": 1}, {"nops": 3, "ntx": 2, "nops2": 1}, quick_vs=(0, 4))
 CHECKS["C10"]["harnesses"].append(OVERFLOW)
+CHECKS["C10"]["harnesses"].append(ALLOCFREE_REOPEN)
 CHECKS["C10"]["bounds"] += "; " + PROG_BOUNDS
 
 # ------------------------------------------------------------------ C16
@@ -175,12 +180,14 @@ prop("C01", bounds=CRASH_BOUNDS,
 prop("C08",
      bounds="committed prefix (2 pages + 1 symbolic transaction), one symbolic transaction of <= 1 (quick) / 2 (thorough) operations whose Commit meets an injected failure: "
             "kind in {write error, short write + error, sync, truncate, size, mmap}, the 0..4th call of that kind after Begin, burst 1..2; follow-up in {commit, flush+abort, none}; reopen. "
-            "Open/create with a failure at the 0..2nd call of each kind. Writer lemma: 3 messages, failure at any write / the data sync / the final sync",
-     outside=PROG_OUT + "; failures of truncate/mmap during Commit need a file that grows past its mapping (not reached at these sizes; the open-time harness covers mmap/size/truncate failures); OS-level fault semantics are the stub's contract",
+            "Size/MMap/Truncate failures inside a Commit that re-maps (AllocN(61|70) on an unbounded file) or truncates (after overflow use) the file, ordinal 0..1. Open/create with a failure at the 0..2nd call of each kind. Writer lemma: 3 messages, failure at any write / the data sync / the final sync",
+     outside=PROG_OUT + "; failures of truncate/size/mmap during Commit are covered by two fixed scenarios only (growth past the 64 KiB mapping, truncation after overflow use); OS-level fault semantics are the stub's contract",
      harnesses=[
          H("txfile.VerifFault", "failing I/O during Commit: error, no panic, no hang, last committed state kept, follow-up transactions work, reopen shows that state or the complete failed attempt (final sync only)",
            "nops=1 quick / 2 thorough", quick={"params": {"nops": 1}}, thorough={"params": {"nops": 2}, "max_paths": 300000, "budget": "1500s"}),
          H("txfile.VerifFault", "same on an unbounded file", "variant 3", tiers=("thorough",), thorough={"params": {"nops": 2, "variant": 3}, "max_paths": 300000, "budget": "1500s"}),
+         H("txfile.VerifFaultGrow", "Size / MMap / Truncate failing inside Commit (unbounded file grown past its mapping; bounded file cut back after the overflow area was used): error, no panic, File keeps a live mapping, "
+           "last committed state readable, follow-up transaction and reopen work", "2 scenarios x {mmap, size, truncate, none} x 2 ordinals x 3 growth sizes", reach=["end", "mmap in Commit", "truncate in Commit"]),
          H("txfile.VerifOpenFault", "failing I/O while creating/opening: error (never a panic), no mapping left, later open works", "existing/new x prealloc x 6 kinds x 3 ordinals"),
          H("txfile.VerifCheckTruncate", "checkTruncate never cuts below the old state's extent, the new state's extent or the configured maximum", "all 64-bit markers/sizes < 2^40 pages"),
          H("txfile.VerifWriterBigBatch", "more than 1024 queued writes ahead of a sync request: the sync still comes after all of them, the header write after the sync", "1025 / 1525 / 2025 messages"),
@@ -196,6 +203,8 @@ prop("C14",
      harnesses=[H("txfile.VerifResize", "data and root intact, no blocking, exact avail delta when growing, extent bound after shrinking, active header and plain reopen report the new limit (rounded down), "
                   "optional I/O failure during the update, second resize", "3 fills x 3 free patterns x 4 new limits (aligned/unaligned) x prealloc x {no fault, write, sync} x 3 ordinals x second limit",
                   thorough={"params": {"rounds": 3, "resizefaults": 5}, "max_paths": 300000}),
+                H("txfile.VerifResizeSpecial", "a file created unbounded gets a limit; a bounded file whose overflow area is in use gets a larger limit: data, root and overwrite log intact, header carries the new limit, "
+                  "allocations after the resize own their pages, partition, plain reopen reports the limit", "2 scenarios x 2 new limits x prealloc x 1-3 overflow overwrites"),
                 H("txfile.VerifResize", "same with InitMetaArea=8 (free regions border the end of the file, so the page-releasing transaction of a shrink runs)", "metaarea=8",
                   quick={"params": {"metaarea": 8}}, thorough={"params": {"metaarea": 8, "rounds": 3, "resizefaults": 5}, "max_paths": 300000})])
 
